@@ -131,6 +131,14 @@ type trieH struct {
 	startKeys   map[string]bool // keys reachable from the root this trie was opened at (block trie only)
 	snap        string          // last full observation (frame)
 	staleReads  bool            // an ancestor moved on and this trie's reads started to fail (see frame)
+	// op `snap`: the tuple GetChanges() returned at that moment, with the oracle's view of the trie at that moment
+	hasSnap     bool
+	snapRoot    util.Key
+	snapChanges []*util.NodeChange
+	snapDeletes []util.Node
+	snapStart   util.Key
+	snapContent map[string][]byte
+	snapMuts    int
 }
 
 type savedRound struct {
@@ -798,9 +806,33 @@ func (s *storeRun) exec(op string) string {
 		s.roundOps = append(s.roundOps, op)
 		w := int64(atoi(f[1]))
 		donorDB := util.NewMemoryNodeDB()
-		donor := newMPT(donorDB, w, nil)
+		var donorRoot util.Key
 		content := map[string][]byte{}
-		if len(f) > 2 {
+		if f[len(f)-1] == "base" {
+			// the donor is built off the saved state this round continues from (a peer that is a few inserts ahead of
+			// that state): its store holds every node of that state, identical to the nodes this store holds
+			f = f[:len(f)-1]
+			if b := s.base(); b >= 0 {
+				src := newMPT(s.pndb, w, s.saved[b].root)
+				err := src.Iterate(context.Background(), func(ctx context.Context, path util.Path, key util.Key, node util.Node) error {
+					if node != nil {
+						return donorDB.PutNode(append(util.Key(nil), key...), node.CloneNode())
+					}
+					return nil
+				}, util.NodeTypeLeafNode|util.NodeTypeFullNode|util.NodeTypeExtensionNode)
+				if err != nil {
+					s.fail("C05", "the saved state the round continues from cannot be read for the donor: %v", err)
+				}
+				donorRoot = append(util.Key(nil), s.saved[b].root...)
+				content = cloneMap(s.saved[b].content)
+			}
+			s.tags["sync-base-donor"] = true
+			if t.muts > 0 {
+				s.tags["sync-base-donor-after-own-ops"] = true
+			}
+		}
+		donor := newMPT(donorDB, w, donorRoot)
+		if len(f) > 2 && f[2] != "-" {
 			for _, kv := range strings.Split(f[2], ",") {
 				i := strings.IndexByte(kv, '=')
 				k, v := pathOf(kv[:i]), unhx(kv[i+1:])
@@ -1032,6 +1064,81 @@ func (s *storeRun) exec(op string) string {
 			}
 		default:
 			s.fail("C03", "merge of trie %d returned %q", c.id, out)
+		}
+		return out
+
+	case "snap":
+		// keep the change set the child hands out NOW (a block builder that takes a transaction's changes and merges
+		// them later); the child may go on writing
+		c := trie(f[1])
+		if c == nil || c.id == 0 {
+			return "bad-op"
+		}
+		s.roundOps = append(s.roundOps, op)
+		c.snapRoot, c.snapChanges, c.snapDeletes, c.snapStart = c.mpt.GetChanges()
+		c.snapRoot = append(util.Key(nil), c.snapRoot...)
+		c.snapContent = cloneMap(c.content)
+		c.snapMuts = c.muts
+		c.hasSnap = true
+		s.tags["snap"] = true
+		return "ok " + rootStr(c.snapRoot)
+
+	case "mergesnap":
+		// parent.MergeChanges(the tuple taken by `snap`): the parent must take over the child's state AT SNAPSHOT TIME
+		c := trie(f[1])
+		if c == nil || c.id == 0 || !c.hasSnap {
+			return "bad-op"
+		}
+		p := s.tries[c.parent]
+		s.roundOps = append(s.roundOps, op)
+		pSnap := p.snap
+		if adversarialOrder(c.snapChanges) {
+			s.tags["merge-new-old-overlap"] = true
+		}
+		out := guard(func() string {
+			if err := p.mpt.MergeChanges(c.snapRoot, c.snapChanges, c.snapDeletes, c.snapStart); err != nil {
+				return errKind(err)
+			}
+			return "ok " + rootStr(p.mpt.GetRoot())
+		})
+		if c.muts != c.snapMuts {
+			s.tags["mergesnap-child-wrote-after-snap"] = true
+		}
+		parentMoved := p.muts != c.parentMuts
+		switch {
+		case strings.HasPrefix(out, "ok"):
+			if parentMoved && !mapsEqual(p.content, c.openContent) && !mapsEqual(p.content, c.snapContent) {
+				s.fail("C03", "merge of a stale change set of trie %d (its parent %d changed since it was opened) was accepted", c.id, p.id)
+			}
+			if c.snapMuts > 0 {
+				p.muts++
+			}
+			if !mapsEqual(p.content, c.snapContent) {
+				s.ntMerges++
+			}
+			p.content = cloneMap(c.snapContent)
+			if !bytes.Equal(p.mpt.GetRoot(), c.snapRoot) {
+				s.fail("C03", "after merging the change set taken from trie %d the parent's root %s differs from the root handed out with it %s", c.id, rootStr(p.mpt.GetRoot()), rootStr(c.snapRoot))
+			}
+			if !s.sub {
+				s.checkView(p, "parent after merging a change set taken earlier (want: the child's content when it was taken)")
+				s.frame(map[int]bool{p.id: true}, p.id)
+			}
+			s.tags["mergesnap-ok"] = true
+		case out == "stale":
+			if !parentMoved {
+				s.fail("C03", "change set of trie %d rejected as stale although its parent %d did not change since it was opened", c.id, p.id)
+			}
+			s.tags["mergesnap-stale"] = true
+			if !s.sub {
+				if now := s.observe(p); now != pSnap {
+					s.fail("C03", "rejected (stale) merge changed the parent %d:\n   was %s\n   now %s", p.id, clip(pSnap), clip(now))
+				}
+				s.checkView(p, "parent after rejected merge")
+				s.frame(map[int]bool{}, -1)
+			}
+		default:
+			s.fail("C03", "merge of the change set of trie %d returned %q", c.id, out)
 		}
 		return out
 
